@@ -58,6 +58,11 @@ def error_cases():
                       "expline": line + 2, "expcol": 3})
         cases.append({"kind": "errorpos", "case": "import-late", "text": "x { left: 0 }\n" + p + '@import "y";', "expline": line + 1,
                       "expcol": col})
+    # reports that name no token carry no position - also right after a report that did (no position left over from it)
+    for before in ("", "a { left: 0 }\n\n  $ { left: 0 }"):
+        for t in ('@charset "nonsense-enc";', '@import "x" 3d;'):
+            cases.append({"kind": "errorpos", "case": "no-token" + ("-after-token-report" if before else ""), "text": t, "before": before,
+                          "expline": 0, "expcol": 0})
     return cases
 
 
